@@ -188,4 +188,74 @@ def serviceNameConst (s : Service) (o : Opts) : Bytes := formatServiceName s o
 def serverCall (arms : List ServerArm) (path : Bytes) : Option ServerArm :=
   arms.find? (fun a => path == a.literal)
 
+/-! ### Sets of services, and `CodeGenBuilder` as a value with a history (dimension audit aC11) -/
+
+/-- What the two generators emit for one service, as far as the property reads it. -/
+structure Output where
+  serviceName : Bytes
+  arms : List ServerArm
+  calls : List ClientCall
+deriving DecidableEq, Repr
+
+/-- `CodeGenBuilder::generate_server` + `generate_client` on one service. -/
+def generate (s : Service) (o : Opts) : Output :=
+  ⟨serviceNameConst s o, serverArms s o, clientCalls s o⟩
+
+/-- `prost.rs::ServiceGenerator::generate` / `manual.rs::ServiceGenerator::generate` are called
+once per service of the set (all services of a `.proto` file, all files of a package, all
+packages of a descriptor set; `manual::Builder::compile(&[…])`).  Each call builds fresh
+`CodeGenBuilder`s from the front end's options, which nothing changes after `compile_*` was
+entered: nothing is carried from one service to the next. -/
+def generateSet (ds : List Service) (o : Opts) : List Output := ds.map (fun s => generate s o)
+
+/-- What can be done to one `CodeGenBuilder` value. -/
+inductive BOp
+  /-- `emit_package(b)` -/
+  | emitPackage (b : Bool)
+  /-- `compile_well_known_types(b)` -/
+  | compileWkt (b : Bool)
+  /-- `use_arc_self`, `generate_default_stubs`, `build_transport`, `attributes`,
+  `disable_comments`: fields the string functions and the type names never read -/
+  | other
+  /-- `generate_server(&self, service, proto_path)` -/
+  | genServer (s : Service) (protoPath : Bytes)
+  /-- `generate_client(&self, service, proto_path)` -/
+  | genClient (s : Service) (protoPath : Bytes)
+deriving DecidableEq, Repr
+
+/-- The two fields of `CodeGenBuilder` that reach names, paths and types;
+`CodeGenBuilder::default()`. -/
+structure BState where
+  emitPackage : Bool := true
+  compileWkt : Bool := false
+deriving DecidableEq, Repr
+
+inductive BOut
+  | server (name : Bytes) (arms : List ServerArm)
+  | client (calls : List ClientCall)
+deriving DecidableEq, Repr
+
+def BState.opts (st : BState) (protoPath : Bytes) : Opts := ⟨st.emitPackage, st.compileWkt, protoPath⟩
+
+/-- the setters assign one field; `generate_*` take `&self` -/
+def BState.set (st : BState) : BOp → BState
+  | .emitPackage b => { st with emitPackage := b }
+  | .compileWkt b => { st with compileWkt := b }
+  | _ => st
+
+/-- `generate_server` / `generate_client` hand the fields as they are NOW, and the caller's
+`proto_path`, to `server::generate_internal` / `client::generate_internal`. -/
+def BState.emit (st : BState) : BOp → Option BOut
+  | .genServer s p => some (.server (serviceNameConst s (st.opts p)) (serverArms s (st.opts p)))
+  | .genClient s p => some (.client (clientCalls s (st.opts p)))
+  | _ => none
+
+/-- A history of calls on one builder value: everything it emitted, in order. -/
+def BState.run (st : BState) : List BOp → List BOut
+  | [] => []
+  | op :: ops => (st.emit op).toList ++ (st.set op).run ops
+
+/-- The builder value after a history. -/
+def BState.after (st : BState) (ops : List BOp) : BState := ops.foldl BState.set st
+
 end Codegen
